@@ -25,6 +25,8 @@ type c11Case struct {
 	Cues []cueSpec `json:"cues"`
 	// F > 0: check the inverse law (Fragment then Unfragment) instead of the plain specification
 	F int64 `json:"f,omitempty"`
+	// Dup: the list holds its first cue a second time, the same object (as after merging a list into itself)
+	Dup bool `json:"dup,omitempty"`
 }
 
 func init() { register("c11", checkC11) }
@@ -76,6 +78,13 @@ func checkC11(c c11Case) string {
 		return checkC11Inverse(c)
 	}
 	b := buildList(c.Cues)
+	if c.Dup && len(c.Cues) > 0 {
+		// (the specification sees two entries with the same values)
+		c.Cues = append(append([]cueSpec(nil), c.Cues...), c.Cues[0])
+		b.sub.Items = append(b.sub.Items, b.sub.Items[0])
+		b.items = append(b.items, b.items[0])
+		b.snaps = append(b.snaps, b.snaps[0])
+	}
 	b.sub.Unfragment()
 	if m := b.metaDiff(); m != "" {
 		return m
@@ -262,7 +271,7 @@ func TestC11(t *testing.T) {
 
 	// "ab" and "a+b" show the same text with a different split into runs
 	texts3 := []string{"a", "b", "a|b"}
-	textsR := []string{"a", "b", "a|b", "ab", "a+b", "a|+b", "a|", "|a", " a", "a ", "a| b", "liquid", "costarring", "Aa", "BB", "plumless", "buckeroo", "hetairas", "mentioner"} // "a|" and "|a": "a" with an empty line after or before it; " a", "a ", "a| b": padded with a blank (all other texts than "a" / "a|b")
+	textsR := []string{"a", "b", "a|b", "ab", "a+b", "a|+b", "a|", "|a", " a", "a ", "a| b", "liquid", "costarring", "Aa", "BB", "plumless", "buckeroo", "hetairas", "mentioner", "~", ""} // "a|" and "|a": "a" with an empty line after or before it; " a", "a ", "a| b": padded with a blank (all other texts than "a" / "a|b")
 	// Exhaustive: every list (any order) of <=4 cues on the 0..N grid with 3 texts.
 	grid := func(name string, maxN int, max int64) {
 		sub(t, name, func(t *testing.T) {
@@ -315,8 +324,11 @@ func TestC11(t *testing.T) {
 	rapidCheck(t, "C11/random", tier(10000, 1000000), func(rt *rapid.T) {
 		maxT := rapid.SampledFrom([]int64{12 * nsMs, 200 * nsMs, 3600 * 1000 * nsMs}).Draw(rt, "range")
 		cues := genCues(rt, 0, 9, maxT, textsR)
-		c := c11Case{Cues: cues}
+		c := c11Case{Cues: cues, Dup: rapid.IntRange(0, 5).Draw(rt, "dup") == 0}
 		nt, ls := c11NonTrivial(c)
+		if c.Dup {
+			ls = append(ls, "same-cue-object-twice")
+		}
 		ev.Case(nt, fmt.Sprintf("%v", c), append(ls, "random")...)
 		if nt {
 			ev.Sample("random", c)
